@@ -13,6 +13,10 @@ import (
 type RefCounter struct {
 	mu      sync.Mutex
 	cnt     map[*gkvlite.Item]int
+	own     map[*gkvlite.Item]bool // items the ItemAlloc callback produced (loaded from the file)
+	Recycled int
+	hold     bool            // recycling suspended (during CopyTo: known finding copyto-destination-uncounted)
+	deferred []*gkvlite.Item // items whose count reached zero while suspended
 	neg     []string
 	zeroOut []string
 	Allocs  int
@@ -20,13 +24,16 @@ type RefCounter struct {
 	DecRefs int
 }
 
-func NewRefCounter() *RefCounter { return &RefCounter{cnt: map[*gkvlite.Item]int{}} }
+func NewRefCounter() *RefCounter {
+	return &RefCounter{cnt: map[*gkvlite.Item]int{}, own: map[*gkvlite.Item]bool{}}
+}
 
 func (rc *RefCounter) callbacks(cb gkvlite.StoreCallbacks) gkvlite.StoreCallbacks {
 	cb.ItemAlloc = func(c *gkvlite.Collection, keyLength uint32) *gkvlite.Item {
 		i := &gkvlite.Item{Key: make([]byte, keyLength)}
 		rc.mu.Lock()
 		rc.cnt[i] = 1
+		rc.own[i] = true
 		rc.Allocs++
 		rc.mu.Unlock()
 		return i
@@ -44,9 +51,49 @@ func (rc *RefCounter) callbacks(cb gkvlite.StoreCallbacks) gkvlite.StoreCallback
 		if rc.cnt[i] < 0 {
 			rc.neg = append(rc.neg, fmt.Sprintf("item key=%x count=%d", i.Key, rc.cnt[i]))
 		}
+		if rc.cnt[i] == 0 && rc.own[i] {
+			if rc.hold {
+				rc.deferred = append(rc.deferred, i)
+			} else {
+				rc.recycle(i)
+			}
+		}
 		rc.mu.Unlock()
 	}
 	return cb
+}
+
+// recycle: a recycling allocator.  Once gkvlite has released its last reference to an item the allocator produced,
+// the key and value buffers belong to the allocator again and are overwritten (as if handed to the next item).
+func (rc *RefCounter) recycle(i *gkvlite.Item) {
+	for j := range i.Key {
+		i.Key[j] = 0xA5
+	}
+	for j := range i.Val {
+		i.Val[j] = 0xA5
+	}
+	rc.Recycled++
+}
+
+// suspend / resume bracket a CopyTo: its destination store shares the source's Items without counting its references
+// (known finding copyto-destination-uncounted, probed separately), so recycling is postponed until the destination
+// has been compared and closed.
+func (rc *RefCounter) suspend() {
+	rc.mu.Lock()
+	rc.hold = true
+	rc.mu.Unlock()
+}
+
+func (rc *RefCounter) resume() {
+	rc.mu.Lock()
+	rc.hold = false
+	for _, i := range rc.deferred {
+		if rc.cnt[i] == 0 {
+			rc.recycle(i)
+		}
+	}
+	rc.deferred = nil
+	rc.mu.Unlock()
 }
 
 // handedOut checks that an item given to the caller has a positive count.
@@ -165,6 +212,24 @@ func checkC15(rep *Report, rng *Rng, tier string) {
 		n = 5000
 	}
 	probeGetReference(rep)
+	probeCopyToUncounted(rep)
+	// two readers reloading the same key-only cached item with its value, one parked inside its value read
+	parkedRuns, parkedSkipped := 0, 0
+	for k := 0; k < 40 && len(rep.Violations) == 0; k++ {
+		seed := rng.U64()
+		w := &World{Timeout: 30e9}
+		res := w.guard(func() string { return runC15Parked(seed, k%2 == 1) })
+		rep.Evaluations++
+		parkedRuns++
+		if res == "skip" {
+			parkedSkipped++
+		} else if res != "" {
+			rep.Violation("", false, map[string]interface{}{"scenario": "item cached key-only; reader A reloads it with its value and is parked inside the value read; reader B does the same reload to the end; A is released", "scenario_seed": seed, "with_eviction": k%2 == 1,
+				"observed": res, "expected": "no count below zero, both handed-out items positive and intact, all counts zero after the releases and Close"})
+		}
+	}
+	rep.Extra["parked_two_reader_reloads"] = parkedRuns
+	rep.Extra["parked_two_reader_reloads_skipped"] = parkedSkipped
 	rep.Rule = "seeded histories of mutations, lookups, visits (plain, Ex, iterators, early stops), evictions, flushes, re-opens, snapshots (reads through them, closes in varying order) over 1-3 collections with ItemAlloc/ItemAddRef/ItemDecRef installed; after every step: no count below zero, every item handed to the caller or cached under an open handle (verif-tag dump) has a positive count; at the end everything is closed and every count must be zero; non-trivial = at least 8 ops"
 	HistoryLoop(rep, rng, n, func(r *Rng, i int) (RunCfg, []Op, string) {
 		g := GenCfg{FileBacked: r.Chance(3, 4), NColls: 1 + r.Intn(3), NOps: 30 + r.Intn(70), Structural: true, Visits: true, PrioMode: r.Intn(4), Invalid: r.Chance(1, 3), CollMgmt: r.Chance(1, 3)}
